@@ -428,9 +428,71 @@ def open_typed_array(rng):
         return "%dx%s" % (m, text), ["R:%d:0" % m] + slots
     return text, slots
 
+def _flit(rng, k, x):
+    """a float / double literal for a value with few binary digits"""
+    s = repr(float(x))
+    return s + "d" if k == "d" else s + rng.choice(["", "", "f"])
+
+def float_range(rng):
+    """ranges over floats and doubles with exactly representable values and steps: "a b ... c" (step
+    b - a), "b ... c" (unit step, up or down) behind a value of another type, a range directly behind a
+    range (its "a" is the last value of the first one), open ranges behind further elements; at top
+    level, in an array, nested, repeated.  The step is a slot of the range's type."""
+    k = rng.choice("fd")
+    sl = f32 if k == "f" else f64
+    lit = lambda v: _flit(rng, k, v)
+    x = rng.choice([0.5, 1.5, -2.0, 8.0, 0.25, -7.75, 100.0, 0.0])
+    d = rng.choice([0.5, 1.0, -0.25, 2.0, -1.5, 0.125, -1.0])
+    n = rng.randint(2, 6)
+    in_array = rng.random() < 0.55
+    form = rng.random()
+    if form < 0.3:                                 # "b ... c": unit step, no usable neighbour
+        d = rng.choice([1.0, -1.0])
+        b, c = x, x + d * (n - 1)
+        if in_array and rng.random() < 0.5:
+            parts, slots = [], []
+        else:
+            parts, slots = rng.choice([(["nil"], ["N"]), (["true"], ["T"]), (["7"], ["i:7"]), (['"ab"'], ["s:6162"])])
+            parts, slots = list(parts), list(slots)
+        parts += [lit(b), "...", lit(c)]
+        slots += ["R:%d:1" % n, sl(d), sl(b)]
+    else:                                          # "a b ... c"
+        a, b = x, x + d
+        c = b + d * (n - 1)
+        parts = [lit(a), lit(b), "...", lit(c)]
+        slots = [sl(a), "R:%d:1" % n, sl(d), sl(b)]
+    if form >= 0.7:                                # a second range directly behind: "... c e ... g"
+        d2 = rng.choice([0.5, -0.5, 2.0, 0.25, -3.0])
+        e = c + d2
+        if in_array and rng.random() < 0.5:        # open: ends the array
+            parts += [lit(e), "..."]
+            slots += ["R:0:1", sl(d2), sl(e)]
+        else:
+            n2 = rng.randint(2, 5)
+            parts += [lit(e), "...", lit(e + d2 * (n2 - 1))]
+            slots += ["R:%d:1" % n2, sl(d2), sl(e)]
+    elif in_array and form >= 0.5:                 # further elements, then the open range
+        e = c + d; g = e + d
+        parts += [lit(e), lit(g), "..."]
+        slots += [sl(e), "R:0:1", sl(d), sl(g)]
+    if not in_array:
+        return sep(rng, False).join(parts), slots
+    text = "[" + rng.choice(["", " "]) + sep(rng, False).join(parts) + rng.choice(["", " "]) + "]"
+    slots = ["a:%d:%d" % (ord(k), len(slots))] + slots
+    q = rng.random()
+    if q < 0.25:
+        return "[" + text + "]", ["a:97:%d" % len(slots)] + slots
+    if q < 0.45:
+        m = rep_count(rng, 2, 4)
+        return "%dx%s" % (m, text), ["R:%d:0" % m] + slots
+    return text, slots
+
 def structured(rng):
-    if rng.random() < 0.15:
+    q = rng.random()
+    if q < 0.15:
         return open_typed_array(rng)
+    if q < 0.3:
+        return float_range(rng)
     """ranges, repetitions, arrays: (text, slots)"""
     q = rng.random()
     if q < 0.15:
